@@ -1793,6 +1793,7 @@ class Tensor:
         tensor.setName(self.getName() + "+unflattened")
         tensor.setColor(self.getColor())
         tensor.setMutable(self.isMutable())
+        tensor.setDefault(self.getDefault())
 
         # Maintain the formats for all untouched rank_ids
         # Compress everything else
